@@ -575,8 +575,45 @@ def setup(ctx):
     ctx._c17_schemas = rt.Schemas()
 
 
+def shared_argument_case(ctx, rng) -> None:
+    """Two configs built from the same mutable arguments; mutating the argument (or one config) must not change the other."""
+    import warnings
+
+    import numpy as np
+    from pulser.backend import default_observables as DO
+    from pulser.backend.config import EmulationConfig
+
+    n = rng.randint(2, 4)
+    buf = np.zeros((n, n))
+    for i in range(n):
+        for j in range(i + 1, n):
+            buf[i, j] = buf[j, i] = round(rng.uniform(0.1, 5.0), 3)
+    obs = [DO.BitStrings(num_shots=rng.randint(10, 500)), DO.Occupation(evaluation_times=[0.5, 1.0])]
+    ctx.case = {"shared_arguments": {"n": n, "matrix": buf.tolist()}}
+    with warnings.catch_warnings():
+        warnings.simplefilter("ignore")
+        try:
+            c1 = EmulationConfig(observables=obs, interaction_matrix=buf, default_evaluation_times=[1.0])
+            before = c1.to_abstract_repr()
+            m1 = np.array(c1.interaction_matrix, dtype=float).copy()
+            buf[0, 1] = buf[1, 0] = 99.0            # the caller reuses its buffer for the next config
+            obs[0].num_shots = 7                     # ... and edits an observable it still holds
+            c2 = EmulationConfig(observables=obs, interaction_matrix=buf, default_evaluation_times=[1.0])
+            after = c1.to_abstract_repr()
+        except Exception as e:  # noqa: BLE001
+            ctx.gray(f"shared-argument-case-raised:{type(e).__name__}")
+            return
+    ctx.count("shared_argument_checks")
+    if before != after or not np.array_equal(m1, np.array(c1.interaction_matrix, dtype=float)):
+        ctx.violation("aliasing", "an EmulationConfig changed when the arguments it was built from were modified / reused for "
+                      "another config (serialisation before != after)", "aliasing:config-shares-constructor-arguments")
+
+
 def run_case(ctx, idx, rng, tier):
     import warnings
+
+    if idx % 10 == 9:
+        shared_argument_case(ctx, rng)
 
     case = make_case(rng)
     ctx.case = case
